@@ -6,8 +6,9 @@
    prov.hist   args: t0 [ [0 t] | [1 t id] ... ]                     outs: [ [id vid nb na] | [1 id vid nb na] | [0] ... ]
                one goroutine: NewProvider at t0, then Current / Get(id) at the absolute virtual times t (ns)
    prov.conc   args: t0 [ [t [ [g 0] | [g 1 id] ... ]] ... ]          outs: [ [obs ...] ... ]  (same shape as the groups)
-               several goroutines; a group = the calls made at one virtual instant, at most one per goroutine,
-               listed in the order they completed
+               several goroutines; a group = the calls made at one virtual instant, each goroutine one or
+               more calls, listed in the order they completed (a goroutine's own calls in program order)
+   prov.long   as prov.hist, > 65536 rotations; oracle = the one-pass C12_long_ok
    prov.lock   args: (none)   outs: [ [name locked] ... ]  source check: every method of *Provider that the servers
                call takes p.mu first and releases it by defer *)
 From Coq Require Import ZArith List String.
@@ -107,15 +108,32 @@ Definition glue_C12 (k : string) (a o : list value) : option verdict :=
             end
         | None => None end
     | _, _ => None end
+  else if is k "prov.long" then
+    (* same shape as prov.hist; tens of thousands of calls, judged by the one-pass oracle *)
+    match a, o with
+    | [VZ t0; VL opsv], [VL outs] =>
+        match all_some op_of_value opsv with
+        | Some ops =>
+            match obs_list ops outs with
+            | Some bs =>
+                if monob t0 ops then
+                  match history t0 ops with
+                  | Some (_, exp) => Some (functional [VL (map value_of_obs exp)] o (C12_long_ok bs))
+                  | None => Some (functional [VZ (-1)] o (C12_long_ok bs))
+                  end
+                else None
+            | None => Some (relational false true)
+            end
+        | None => None end
+    | _, _ => None end
   else if is k "prov.conc" then
     match a, o with
     | [VZ t0; VL gsa], [VL gso] =>
         match groups_of_values gsa gso with
         | Some gs =>
             let bs := groups_obs gs in
-            let wf := groups_wf gs in
             match new_provider t0 with
-            | Some s => if wf then Some (relational (groups_ok s t0 gs) (C12_ok bs)) else None
+            | Some s => Some (relational (groups_ok s t0 gs) (C12_ok bs))
             | None => None end
         | None => Some (relational false true)
         end
